@@ -58,9 +58,13 @@ func Run(cfg hx.Config) (*hx.Meta, error) {
 	}
 
 	outs := make([]Outcome, len(cases))
+	srcs := make([]string, len(cases)) // rendered here: the renderer keeps its nesting depth in a package variable
+	for i := range cases {
+		srcs[i] = cases[i].Source()
+	}
 	hx.Parallel(len(cases), 16, func(i int) {
 		dir := filepath.Join(cfg.Work, fmt.Sprintf("c%05d", i))
-		outs[i] = RunFiles(cfg, dir, map[string]string{"u.go": cases[i].Source()}, false)
+		outs[i] = RunFiles(cfg, dir, map[string]string{"u.go": srcs[i]}, false)
 		if os.Getenv("C09_KEEP") == "" {
 			os.RemoveAll(dir)
 		}
